@@ -76,13 +76,13 @@ def _sanity(rep) -> None:
 def run(rep, tier: str, seed: int) -> None:
     t0 = time.time()
     _sanity(rep)
-    cases, info = cc.select_cases(tier, seed, salt="C02", quick_total=190)
+    cases, info = cc.select_cases(tier, seed, salt="C02", quick_total=172)
     rep.rule("case = one solve() call in a call history on one solver object (constraint template of "
              "bounded.c01_cases.TEMPLATES, incl. one template per operator of the lexer grammar, x settings grid "
              "point); up to 10 calls, then 5 further calls after the first StopIteration/TimeoutError; every call is "
              "non-trivial")
     rep.rule("quick: every template once with a seed-drawn grid point plus seed-drawn templates with default "
-             "settings; thorough: default settings, 40 seed-drawn grid points per template and a pairwise cover")
+             "settings; thorough: default settings, 30 seed-drawn grid points per template and a pairwise cover")
     rep.bound(f"{info['templates']} templates over 11 grammars, settings grid of {info['grid_points']} points (full "
               f"product {info['full_grid_solver_objects']} solver objects NOT enumerated; {info['selected']} selected "
               f"in tier {tier}); histories of <= 15 calls; timeout_seconds=10; soft watchdog 45 s, hard 75 s")
@@ -96,6 +96,7 @@ def run(rep, tier: str, seed: int) -> None:
 
     n_calls = n_trees = n_objects = 0
     n_stop = n_timeout = n_sticky_stop = n_sticky_timeout = n_other = 0
+    samples: List[Dict[str, Any]] = []
     for case, status, rec in results:
         n_objects += 1
         cid = case["cid"]
@@ -129,6 +130,7 @@ def run(rep, tier: str, seed: int) -> None:
                 n_trees += 1
                 history.append("tree")
             rep.case(key=f"{cid}#{i}", nontrivial=True, sample=None)
+        n_first = len(history)
         for j, post in enumerate(rec["post"]):
             n_calls += 1
             history.append("post:" + (post["type"] if post["kind"] == "exc" else "tree"))
@@ -138,10 +140,10 @@ def run(rep, tier: str, seed: int) -> None:
                 n_sticky_stop += 1
             else:
                 n_sticky_timeout += 1
-        if n_objects % 23 == 1:
-            rep.case(key=f"{cid}#history", nontrivial=False,
-                     sample=dict(grammar=case["grammar"], constraint=case["text"], settings=case["settings"],
-                                 start_symbol=case["start_symbol"], history=history))
+        if n_objects % 23 == 1 and len(samples) < 10:
+            samples.append(dict(grammar=case["grammar"], constraint=case["text"], settings=case["settings"],
+                                start_symbol=case["start_symbol"], call_history=history[:n_first],
+                                calls_after_first_terminal_exception=history[n_first:]))
         fam = family(case["cls"])
         for core, text in history_failures(rec):
             rep.violation(
@@ -152,6 +154,7 @@ def run(rep, tier: str, seed: int) -> None:
                 dict(module=MODULE, case=case, core=core),
             )
 
+    rep.samples.extend(samples)
     rep.section("histories", solver_objects=n_objects, solve_calls=n_calls, trees_returned=n_trees,
                 StopIteration_first=n_stop, TimeoutError_first=n_timeout, other_exceptions=n_other,
                 sticky_after_StopIteration_5_of_5=n_sticky_stop, sticky_after_TimeoutError_5_of_5=n_sticky_timeout)
